@@ -3,12 +3,13 @@
 import glob, importlib.util, json, os, subprocess
 V = os.path.dirname(os.path.dirname(os.path.abspath(__file__)))
 props = [json.loads(l) for l in open(os.path.join(V, "properties.jsonl"))]
+CLAIMED = set(json.load(open(os.path.join(V, "tools", "claimed.json"))))
 specs = {}
 for p in sorted(glob.glob(os.path.join(V, "tools", "props", "C*.py"))):
     sp = importlib.util.spec_from_file_location("m", p)
     m = importlib.util.module_from_spec(sp)
     sp.loader.exec_module(m)
-    if m.SPEC.get("claimed", True):
+    if m.SPEC["id"] in CLAIMED:
         specs[m.SPEC["id"]] = m.SPEC
 na_path = os.path.join(V, "tools", "not_applicable.json")
 na_reasons = json.load(open(na_path)) if os.path.exists(na_path) else {}
